@@ -14,6 +14,7 @@ def v3s (v : V3) : List Float := [v.x, v.y, v.z]
  `walker <delta 0|1> t p f raan0` → 2·p·(t/p) floats raan nu …
  `beta p(3) v(3) ref(3)`          → beta
  `bplane mu aAbs r(3) v(3)`       → B(3) theta S(3) T(3) R(3) e(3) h(3)
+ `td days seconds microseconds`    → tdTotal
  `dtheta <prograde 0|1> r0(3) r1(3)` → dtheta A
  `j2seq mu re j2 a e i raan argp M t <ops>` with ops `S k v` (orb[k] = v), `D t` (orb.date = t), `P dt` (propagate)
                                   → a e i raan argp M t of every `P`, in order -/
@@ -34,6 +35,10 @@ def parseOps : Nat → List String → Option (List J2Op)
   | _, _ => none
 
 def handle : List String → Option String
+  | "td" :: rest => some <|
+    match takeFloats 3 rest with
+    | some ([d, s, us], _) => fsToStr [tdTotal d s us]
+    | _ => "bad-op"
   | "dtheta" :: pro :: rest => some <|
     match takeFloats 6 rest with
     | some ([a, b, c, d, e, f], _) =>
